@@ -27,6 +27,8 @@ Not decided: floating-point accuracy of numpy/scipy; the exact float equality
 """
 from __future__ import annotations
 
+import ast
+
 from ..commands import CommandRun
 from ..driver import World
 from ..interp import Frame
@@ -153,11 +155,95 @@ def analyse(W, name, f, ctx, desc, path):
 
 
 # ---------------------------------------------------------------------- transformer algebra
+def representation_owner(check, P, owner="Transform"):
+    """Who-may-write rule: the matrix, its inverse and the pivot translations are kept coherent by the owner's
+    own methods (the rules below check those), so no code outside the class may assign them or write into them
+    in place (`x._matrix[:3, 3] += ...`, `x._inverse = ...`): the stored inverse would no longer be the inverse
+    of the stored matrix, and reverse() would no longer undo apply()."""
+    ci = P.cls(owner)
+    fields = set()
+    for fn in ci.methods.values():
+        for n_ in ast.walk(fn.node):
+            targets = n_.targets if isinstance(n_, ast.Assign) else ([n_.target] if isinstance(n_, (ast.AnnAssign, ast.AugAssign)) else [])
+            for t in targets:
+                for tt in (t.elts if isinstance(t, ast.Tuple) else [t]):
+                    if isinstance(tt, ast.Attribute) and isinstance(tt.value, ast.Name) and tt.value.id == "self" and tt.attr.startswith("_"):
+                        fields.add(tt.attr)
+    n = 0
+
+    def stores(node):
+        """(attribute node, how) for every store into an attribute or into an item / slice of an attribute"""
+        targets = []
+        if isinstance(node, ast.Assign):
+            targets = list(node.targets)
+        elif isinstance(node, (ast.AnnAssign, ast.AugAssign)):
+            targets = [node.target]
+        elif isinstance(node, ast.Delete):
+            targets = list(node.targets)
+        elif isinstance(node, (ast.For, ast.AsyncFor)):
+            targets = [node.target]
+        out = []
+        work = list(targets)
+        while work:
+            t = work.pop()
+            if isinstance(t, (ast.Tuple, ast.List)):
+                work.extend(t.elts)
+            elif isinstance(t, ast.Starred):
+                work.append(t.value)
+            elif isinstance(t, ast.Attribute):
+                out.append((t, "assigned"))
+            elif isinstance(t, ast.Subscript):
+                v = t.value
+                while isinstance(v, ast.Subscript):
+                    v = v.value
+                if isinstance(v, ast.Attribute):
+                    out.append((v, "written in place"))
+        return out
+
+    def visit(node, cls, func, mod):
+        nonlocal n
+        for child in ast.iter_child_nodes(node):
+            if isinstance(child, ast.ClassDef):
+                visit(child, child.name, func, mod)
+                continue
+            if isinstance(child, (ast.FunctionDef, ast.AsyncFunctionDef)):
+                visit(child, cls, child.name, mod)
+                continue
+            for attr, how in stores(child):
+                if attr.attr not in fields:
+                    continue
+                own_self = isinstance(attr.value, ast.Name) and attr.value.id == "self"
+                if cls == owner:
+                    n += 1
+                    continue
+                if own_self:
+                    continue            # another class's own field of the same name
+                n += 1
+                check.violation("R5", f"owner:{attr.attr}:{cls or mod.name}.{func}",
+                                f"{mod.path.name}:{child.lineno} {cls + '.' if cls else ''}{func}: {ast.unparse(attr)} is {how} outside {owner}; "
+                                f"only {owner}'s own methods keep the matrix, its inverse and the pivot translations coherent", [])
+            visit(child, cls, func, mod)
+
+    for mod in P.modules.values():
+        visit(mod.tree, None, "<module>", mod)
+    if fields:
+        check.ok("R5", f"{owner}'s fields {sorted(fields)} are written only by its own methods ({n} store sites)")
+    check.floor(bool(fields) and n >= 2, f"C04.R5: {owner} has {len(fields)} private fields and {n} store sites")
+    return n
+
+
 def transformer_rules(check, P):
     W = World(P, "CoordinateTransformer", root_label="xf")
     I = W.I
-    n = 0
+    n = representation_owner(check, P)
     x0 = I.static_heap[W.ref("xform").addr]
+    missing = [k for k in ("_matrix", "_inverse", "_from_pivot", "_to_pivot") if k not in x0.fields]
+    if missing:
+        # the rules below read the stored matrix, its stored inverse and the two pivot translations off these fields
+        check.undecided("R4", f"Transform keeps no field {', '.join(missing)} after construction: how it represents "
+                              "its matrix / inverse / pivot translations is not a form the analysis recognises")
+        check.floor(False, f"C04.R4: Transform has no field {', '.join(missing)}")
+        return 0
     init = {k: x0.fields[k] for k in ("_matrix", "_inverse", "_from_pivot", "_to_pivot")}
     # --- chain_transform(M)
     M = Unk("arg.M", "array")
